@@ -1289,7 +1289,21 @@ class Builtins(OpsMixin, LoopsMixin):
                 ka = {k: z3.simplify(ex.deref(p, a).t).as_string() for k, a in kwargs.items()}
                 yield p, VStr(base.as_string().format(*pa, **ka))
                 return
-            yield p, VStr(V.fresh("fmt", StrS))
+            # text.format(args...) with symbolic arguments: a message identified by its template and arguments
+            # (uninterpreted, injective: different templates / arguments give different messages)
+            k = len(vals)
+            try:
+                bs = [box(a) for a in vals]
+            except TypeError:
+                yield p, VStr(V.fresh("fmt", StrS))
+                return
+            f = z3.Function("py_format_%d" % k, *([StrS] + [Val] * k + [StrS]))
+            r = f(v.t, *bs)
+            if ex.is_ground(v.t, *bs):
+                p.assume(z3.Function("py_format_tpl_%d" % k, StrS, StrS)(r) == v.t)
+                for j, b in enumerate(bs):
+                    p.assume(z3.Function("py_format_arg_%d_%d" % (k, j), StrS, Val)(r) == b)
+            yield p, VStr(r)
             return
         if name == "startswith":
             yield p, VBool(z3.PrefixOf(args[0].t, v.t))
